@@ -187,6 +187,54 @@ pub fn run_case(ctx: &Ctx, idx: u64) -> Vec<CaseOut> {
             }
         }
     }
+    // (d) MT with flushes: a flush dispatches a partly filled unit, so the output depends on WHERE
+    // the caller flushes - but for one and the same call sequence it must not depend on the number
+    // of workers, on which worker gets which unit, or on the schedule
+    if is_mt && !tiny && !data.is_empty() {
+        // a handful of writes only: every flush costs a whole encoder set-up in a worker
+        let pieces = 2 + r.usize_below(6);
+        let mut cuts: Vec<usize> = (0..pieces - 1).map(|_| r.usize_below(data.len() + 1)).collect();
+        cuts.sort_unstable();
+        let mut partition = Vec::new();
+        let mut prev = 0usize;
+        for c in cuts {
+            partition.push(c - prev);
+            prev = c;
+        }
+        partition.push(data.len() - prev);
+        let flush_every = 1 + r.usize_below(2);
+        let mut reference_f: Option<Vec<u8>> = None;
+        for &w in &[1u32, 2, 4, 1, 3] {
+            let c2 = match &c {
+                Container::Lzma2Mt { chunk, .. } => Container::Lzma2Mt { chunk: *chunk, workers: w },
+                Container::LzipMt { member, .. } => Container::LzipMt { member: *member, workers: w },
+                x => x.clone(),
+            };
+            let sched = if reference_f.is_none() { mt::no_sched(); String::from("none") } else { mt::random_sched(&mut r) };
+            let sp = Spec { c: c2, o: spec.o.clone() };
+            let d = data.clone();
+            let part = partition.clone();
+            let res = mt::guarded(8000, 300_000, move || encode(&sp, &d, &part, flush_every));
+            mt::no_sched();
+            stat_add("mt_runs_with_flushes", 1);
+            let cell = format!("{cname}|workers+schedule|flushes");
+            let desc = format!("{desc0}: {} writes, flush after every {flush_every}. write, workers={w} sched=[{sched}]", partition.len());
+            match res {
+                Guarded::Done(Ok(b)) => match &reference_f {
+                    None => reference_f = Some(b),
+                    Some(rf) => {
+                        if &b != rf {
+                            out.push(CaseOut::viol(cell, format!("schedule-or-workers-change-output {cname} [with-flushes]"), first_diff(&b, rf), desc));
+                        } else {
+                            out.push(CaseOut::held(cell, partition.len() > 1, desc));
+                        }
+                    }
+                },
+                Guarded::Done(Err(e)) => out.push(CaseOut::viol(cell, format!("enc-err {cname} [with-flushes] {e}"), "", desc)),
+                _ => out.push(CaseOut::skip(cell, "encode panicked or hung (judged by C08/C09)", desc)),
+            }
+        }
+    }
     let _ = catch(|| ());
     out
 }
